@@ -82,19 +82,42 @@ def run(ck: Checker, prog: Program, tier: str):
 
 
 def _single_window_guard(ck: Checker, prog: Program, cls):
-    """mean_curve's single-window shortcut and std_curve's refusal test the *window* mask count."""
-    for name, ops in (("mean_curve", (ast.Eq,)), ("std_curve", (ast.Gt, ast.GtE))):
+    """mean_curve's single-window shortcut and std_curve's refusal as decision tables over the number of accepted *windows*:
+    mean_curve takes the shortcut exactly when that number is 1; std_curve returns exactly when it exceeds 1 and raises otherwise
+    (written with either branch first, as guard clauses or if/else)."""
+    from ..pathtable import PathTable, literals, same_rel, negate
+    from .common import pkg_call_hook
+    COUNT = sp.Function("sum")(sp.Symbol("self.valid_window_boolean_mask", real=True))
+    one = sp.Integer(1)
+    for name in ("mean_curve", "std_curve"):
         m = cls.methods[name]
-        ifs = [st for st in m.node.body if isinstance(st, ast.If)]
-        good = False
-        if len(ifs) == 1 and isinstance(ifs[0].test, ast.Compare) and isinstance(ifs[0].test.ops[0], ops):
-            l = ifs[0].test.left
-            good = isinstance(l, ast.Call) and call_name(l) == "sum" and l.args and unparse(l.args[0]) == "self.valid_window_boolean_mask" \
-                and unparse(ifs[0].test.comparators[0]) == "1"
-        if good:
-            ck.ok("C05.R3", m.qualname, norm_key(ifs[0]), nontrivial=False)
+        leaves = PathTable(prog, m.module, call_hook=pkg_call_hook(prog, m.module, cls)).leaves(m.node.body)
+        problems = []
+        n_dec = 0
+        for l in leaves:
+            lits = [x for x in literals(l) if x.has(COUNT)]
+            others = [x for x in literals(l) if not x.has(COUNT)]
+            if len(lits) != 1:
+                problems.append(f"a path decides on {[str(x) for x in literals(l)]} instead of the number of accepted windows")
+                continue
+            x = lits[0]
+            n_dec += 1
+            if name == "mean_curve":
+                single = same_rel(x, sp.Eq(COUNT, one, evaluate=False))
+                several = same_rel(x, sp.Ne(COUNT, one, evaluate=False))
+                uses_mean = l.value is not None and any(getattr(a.func, "__name__", "") == "_nanmean_weighted" for a in sp.sympify(l.value).atoms(sp.Function))
+                if not ((single and not uses_mean and l.exit == "return") or (several and uses_mean and l.exit == "return")):
+                    problems.append(f"under `{x}` the method {'averages' if uses_mean else 'returns the single window' if l.exit == 'return' else l.exit}")
+            else:
+                more = same_rel(x, sp.Gt(COUNT, one, evaluate=False)) or same_rel(x, sp.Ge(COUNT, sp.Integer(2), evaluate=False))
+                fewer = same_rel(x, negate(sp.Gt(COUNT, one, evaluate=False))) or same_rel(x, negate(sp.Ge(COUNT, sp.Integer(2), evaluate=False)))
+                if not ((more and l.exit == "return") or (fewer and l.exit == "raise")):
+                    problems.append(f"under `{x}` the method exits by {l.exit}")
+        if not problems and n_dec >= 2:
+            ck.ok("C05.R3", m.qualname, "window count guard", nontrivial=False)
         else:
-            ck.violation("C05.R3", m.qualname, "window count guard", f"{name}: the single-window guard does not count the accepted windows", loc=m.loc())
+            ck.violation("C05.R3", m.qualname, "window count guard",
+                         f"{name}: the single-window guard does not count the accepted windows ({'; '.join(problems[:2]) or 'no decision on the count'})", loc=m.loc())
 
 
 def _cov(ck: Checker, prog: Program, cls, rule: str, weighted: bool):
